@@ -199,3 +199,11 @@ package config
 //@   ensures[a-number-formats-by-value-whatever-its-type] cfgIsNumeric(v) ==> result == cfgNumText(cfgNumOf(v))
 //@   ensures[a-string-is-itself] isString(v) ==> result == anyString(v)
 //@   modifies nothing
+
+// ---- C25: the token a /query/ request is compared with is the one configured NOW - read from the configuration in
+// force at the time of the request, not remembered from an earlier one (a reload may rotate or remove it).
+//@ contract config.(*fileConfig).GetQueryAuthToken props C25
+//@   assert only none
+//@   requires f != nil && f.mainConfig != nil
+//@   ensures[the-token-in-force-is-the-configured-one] result == f.mainConfig.Debugging.QueryAuthToken
+//@   modifies f.mux
